@@ -135,7 +135,7 @@ func coreConcurrent(m map[string]string) error {
 	for i, n := 0, len(cases); i < n; i++ {
 		// (any split into readers is as good as another: first readers of three nodes are wanted too -
 		// a slice of three nodes has room for a fourth)
-		if nn := len(cases[i].Nodes); nn >= 4 && i%2 == 0 {
+		if nn := len(cases[i].Nodes); nn == 4 || (nn > 4 && i%2 == 0) {
 			cases[i].Readers = []int{3, nn - 3}
 		}
 		if sib := siblingOf(cases[i], maxID+1); sib != nil {
@@ -158,11 +158,15 @@ func coreConcurrent(m map[string]string) error {
 			return err
 		}
 	}
-	var withSibling []int
+	var withSibling, threeOne []int
 	for i := range sibling {
 		withSibling = append(withSibling, i)
+		if len(cases[i].Readers) == 2 && cases[i].Readers[0] == 3 && cases[i].Readers[1] == 1 {
+			threeOne = append(threeOne, i)
+		}
 	}
 	sort.Ints(withSibling)
+	sort.Ints(threeOne)
 	nSib, nShared := 0, 0
 	for round := 0; round < rounds; round++ {
 		gg := g
@@ -176,6 +180,9 @@ func coreConcurrent(m map[string]string) error {
 		first := rnd.Intn(len(cases))
 		if siblings {
 			first = withSibling[rnd.Intn(len(withSibling))]
+			if len(threeOne) > 0 && rnd.Intn(2) == 0 {
+				first = threeOne[rnd.Intn(len(threeOne))] // a first reader of three nodes and one more node: the slice is exactly full
+			}
 		}
 		for i := range idx {
 			switch {
